@@ -326,7 +326,9 @@ func (d *docState) attrs(tag string) string {
 		a = append(a, `lang="`+Pick(r, []string{"en", "fr", "de", "hu", "zz", ""})+`"`)
 	}
 	num := func() string {
-		return Pick(r, []string{"0", "1", "2", "3", "7", "-1", "1000", "65535", "99999999999999999999", "1.5", "x", "", "2x", " 2 ", "+2", "0x10", "1e3", "50%", "*"})
+		// spans are kept <= 200: table layout is cubic in the grid width, so larger (legal) spans are slow
+		// without being a termination defect; huge values are exercised by C07's attribute workload
+		return Pick(r, []string{"0", "1", "2", "3", "7", "-1", "100", "200", "1.5", "x", "", "2x", " 2 ", "+2", "0x10", "1e2", "50%", "*"})
 	}
 	switch tag {
 	case "td", "th":
